@@ -482,3 +482,16 @@ pub proof fn lemma_canon_h_single_valued(hm: HMap, ks: Seq<Seq<char>>)
 {
     assert forall|i: int| 0 <= i < ks.len() implies signed_value(hm[#[trigger] ks[i]]) == hm[ks[i]][0] by { assert(hm[ks[i]].len() == 1); }
 }
+
+// ---- C10: the key id names the key that produced the MAC -----------------------------------------------------------------
+// key_record(k): k is ONE key record held by the key keeper: the value of the key-keeper actor's `Option<Key>` at one
+// instant, or the record issued by the host in one response that the key keeper is attesting before it latches it.
+pub uninterp spec fn key_record(k: crate::key_keeper::key::Key) -> bool;
+// latched(guid, key): guid and key are the two fields of one such record ("latched together at one instant")
+pub open spec fn latched(guid: Seq<char>, key: Seq<char>) -> bool {
+    exists|k: crate::key_keeper::key::Key| key_record(k) && k.guid@ == guid && #[trigger] k.key@ == key
+}
+// the (key id, key) pair handed to a signing routine was latched together (no obligation if nothing will be signed)
+pub open spec fn pair_ok(key_guid: Option<String>, key: Option<String>) -> bool {
+    key_guid is Some && key is Some ==> latched(key_guid->0@, key->0@)
+}
